@@ -113,6 +113,42 @@ def _split_top_commas(s):
 
 
 _ATTR = re.compile(r'#\s*!?\[')
+# items compiled out of the build whose MIR is executed (default features, unix, not(test))
+_CFG_OFF = re.compile(r'#\s*\[\s*cfg\s*\(\s*(feature\s*=\s*"[^"]*"|test|windows|target_os\s*=\s*"windows")\s*\)\s*\]')
+
+
+def _drop_cfg_disabled(body):
+    """remove the comma-separated items (enum variants, struct fields) gated by a cfg that is off"""
+    if '#' not in body or 'cfg' not in body:
+        return body
+    keep = []
+    for part in _split_top_commas(body):
+        # leading attribute region of the item
+        i = 0
+        n = len(part)
+        off = False
+        while True:
+            while i < n and part[i].isspace():
+                i += 1
+            m = _ATTR.match(part, i)
+            if not m:
+                break
+            depth = 0
+            j = m.end() - 1
+            while j < n:
+                if part[j] == '[':
+                    depth += 1
+                elif part[j] == ']':
+                    depth -= 1
+                    if depth == 0:
+                        break
+                j += 1
+            if _CFG_OFF.match(part, i):
+                off = True
+            i = j + 1
+        if not off:
+            keep.append(part)
+    return ','.join(keep)
 
 
 def _strip_attrs(s):
@@ -310,7 +346,7 @@ class SrcInfo:
                 continue
             # where clauses: the '{' found might belong to ... fine
             e = _match_brace(s, k)
-            body = _strip_attrs(s[k + 1:e])
+            body = _strip_attrs(_drop_cfg_disabled(s[k + 1:e]))
             if kind == 'enum':
                 vs = []
                 nxt = 0
